@@ -90,6 +90,34 @@ pub fn run(case: &J) -> J {
                 }
             }
         };
+        // arguments that are thunks of other sources (the latest load; loaded now if never loaded)
+        let mut arg_thunks: HashMap<usize, Thunk<'_>> = HashMap::new();
+        let mut arg_load_failed = false;
+        if let Some(m) = req.get("args_src").and_then(|m| m.as_object()) {
+            for (_, v) in m {
+                let j = v.as_u64().unwrap() as usize;
+                if !latest.contains_key(&j) {
+                    let src = &sources[j];
+                    let (ctx, sid) = program.span_manager_mut().insert_source_context(src.len());
+                    cb.sources.add(sid, src.len());
+                    match program.load_source(ctx, src, true, &format!("<src{j}>")) {
+                        Ok(t) => {
+                            latest.insert(j, t);
+                        }
+                        Err(e) => {
+                            out.push(json!({"err": load_error_desc(&e, program.span_manager(), &cb.sources)}));
+                            arg_load_failed = true;
+                        }
+                    }
+                }
+                if let Some(t) = latest.get(&j) {
+                    arg_thunks.insert(j, t.clone());
+                }
+            }
+        }
+        if arg_load_failed {
+            continue;
+        }
         let manifest = req
             .get("manifest")
             .and_then(|m| m.as_str())
@@ -109,6 +137,13 @@ pub fn run(case: &J) -> J {
                         let th = program
                             .load_source(ctx, &code, true, &format!("<arg:{k}>"))
                             .expect("argument code must load");
+                        named.push((program.intern_str(k), th));
+                    }
+                }
+                if let Some(m) = req.get("args_src").and_then(|m| m.as_object()) {
+                    for (k, v) in m {
+                        let j = v.as_u64().unwrap() as usize;
+                        let th = arg_thunks.get(&j).expect("argument source must be loaded").clone();
                         named.push((program.intern_str(k), th));
                     }
                 }
